@@ -287,16 +287,26 @@ func (g *AuthGen) Run(nOps int) {
 				header = q.LastHeader
 				hh, ht = header.GetHeight().GetRevisionHeight(), uint64(header.GetTime().UnixNano())
 			}
-			msg, _ := clienttypes.NewMsgUpdateClient(name, header, signer)
-			r := w.Tx(c, sgIdx, msg)
-			res = authErrClass(r.Codespace, r.Code)
-			if r.Code != 0 && res != "unauthorized" && res != "clientNotFound" && res != "clientNotActive" {
+			signerStr := signer.String()
+			if g.r.Chance(25) {
+				// the governance authority itself is not a relayer: through the Msg service (as a
+				// governance proposal would) its header update must be refused like anybody else's
+				gov := authtypes.NewModuleAddress(govtypes.ModuleName)
+				msg, _ := clienttypes.NewMsgUpdateClient(name, header, gov)
+				signerStr = gov.String()
+				res = g.callMsg(c, msg.ValidateBasic, func(ctx sdk.Context) error { _, err := srv.UpdateClient(ctx, msg); return err })
+			} else {
+				msg, _ := clienttypes.NewMsgUpdateClient(name, header, signer)
+				r := w.Tx(c, sgIdx, msg)
+				res = authErrClass(r.Codespace, r.Code)
+				if r.Code == 0 {
+					res = "ok"
+				}
+			}
+			if res != "ok" && res != "unauthorized" && res != "clientNotFound" && res != "clientNotActive" {
 				res = "app:header"
 			}
-			if r.Code == 0 {
-				res = "ok"
-			}
-			op = fmt.Sprintf("m.update %s %s %s %d %d %d", c.ChainName, w.CanonAddr(signer.String()), name, hh, ht, headerOk)
+			op = fmt.Sprintf("m.update %s %s %s %d %d %d", c.ChainName, w.CanonAddr(signerStr), name, hh, ht, headerOk)
 			g.stats["m.update."+res]++
 		}
 		after := w.FullDump(c)
